@@ -97,3 +97,25 @@ Theorem C11_open_under_schedule : forall scheds f, (forall i, benign (scheds i))
   open_meta_sched scheds f = open_meta f.
 Proof. exact open_meta_sched_eq. Qed.
 Print Assumptions C11_open_under_schedule.
+
+(* the merger (and so the sorter's chunk merges and final merge): a source read under per-load benign
+   schedules is a reader source with the same content, so the merge — output, merge-function calls,
+   failure — is the same as over plain sources *)
+From Grenad.model Require Import Merger.
+From Grenad.proofs Require Import MergeCursors.
+
+Theorem C11_scheduled_source : forall dec file codec scheds reqs root levels es,
+  (forall ord, benign (scheds ord)) -> (forall ord, Forall (fun r => 1 <= r) (reqs ord)) ->
+  reader_source (mk_rsrc (load_block dec file codec) root levels cs_fresh) es ->
+  reader_source (mk_rsrc (ld_sched dec file codec scheds reqs) root levels cs_fresh) es.
+Proof.
+  intros dec file codec scheds reqs root levels es Hb Hq (Hf & bs & W & Ec). split; [reflexivity|].
+  exists bs. split; [exact (wf_store_sched dec file codec scheds reqs root levels bs Hb Hq W)|exact Ec].
+Qed.
+Print Assumptions C11_scheduled_source.
+
+Theorem C11_merger_same_result : forall mf calls srcs1 srcs2 ess,
+  Forall2 reader_source srcs1 ess -> Forall2 reader_source srcs2 ess ->
+  cm_run rsrc rsnext mf calls (S (total_len ess)) srcs1 = cm_run rsrc rsnext mf calls (S (total_len ess)) srcs2.
+Proof. intros mf calls srcs1 srcs2 ess H1 H2. rewrite (merge_of_readers mf calls srcs1 ess H1), (merge_of_readers mf calls srcs2 ess H2). reflexivity. Qed.
+Print Assumptions C11_merger_same_result.
